@@ -74,6 +74,21 @@ def check_effective_tags(chk, ix):
             _fail(chk, "G1", prop, "%s: %s" % (ci.name, sorted(map(str, got))),
                   "%s.effective_tags of an element tagged %s under parents tagged p1 / gp is %s, expected %s" % (
                       ci.name, list(own), sorted(map(str, got)), sorted(want)))
+        # an untagged ancestor in between does not cut the chain
+        st3 = State()
+        st3.frames = []
+        gp3 = st3.alloc(HObj(base, {"tags": ("gp",), "parent": None}, label="grandparent"))
+        par3 = st3.alloc(HObj(base, {"tags": (), "parent": gp3}, label="untagged parent"))
+        me3 = st3.alloc(HObj(ci, {"tags": own, "parent": par3}, label="element"))
+        outs = it.call_function(st3, prop, [], {}, None, self_val=me3)
+        got = _set_items(outs[0][0], outs[0][2]) if len(outs) == 1 and outs[0][1] == "val" else None
+        chk.instance("G1")
+        if got == {"own", "gp"}:
+            chk.ok("G1", {"class": ci.name, "own": list(own), "parent": [], "grandparent": ["gp"], "effective": sorted(got)}, nontrivial_key=spec + ":untagged-parent")
+        else:
+            _fail(chk, "G1", prop, "%s under an untagged parent: %r" % (ci.name, sorted(map(str, got)) if got is not None else None),
+                  "%s.effective_tags of an element tagged %s under an UNTAGGED parent whose own parent is tagged gp is %r, expected "
+                  "['gp', 'own']: inheritance stops at the untagged ancestor" % (ci.name, list(own), sorted(map(str, got)) if got is not None else None))
         # no parent
         st2 = State()
         st2.frames = []
@@ -86,7 +101,7 @@ def check_effective_tags(chk, ix):
         else:
             _fail(chk, "G1", prop, "%s without parent: %r" % (ci.name, got), "effective_tags without parent is %r" % (got,))
     chk.absorb(it)
-    chk.require_instances("G1", 8)
+    chk.require_instances("G1", 12)
 
 
 def check_parent_links(chk, ix):
@@ -224,7 +239,8 @@ def check_tag_consultation(chk, ix):
         lst.base = "children"
         lst.fields["@seq"] = seq
         lref = st.alloc(lst)
-        me = st.alloc(HObj(ci, {"run_items": lref, "tags": ("t",), "parent": None}, label="element"))
+        me = st.alloc(HObj(ci, {"run_items": lref, "tags": ("t",), "parent": None,
+                                "_scenarios": st.alloc(HObj("list", kind="list", items=[], label="row cache (not built yet)"))}, label="element"))
         it.stubs["ChildStub.should_run_with_tags"] = lambda i, s, a, k, n: [(s, "val", s.obj(a[0]).fields["sel"])]
         it.attr_stubs["ScenarioOutline.scenarios"] = lambda i, s, b, n: [(s, "val", seq)]
         st.freeze_base()
@@ -257,8 +273,33 @@ def check_tag_consultation(chk, ix):
             else:
                 chk.ok("G5", {"class": ci.name, "checks": "effective_tags"}, nontrivial_key=(spec, got))
         # containers: a False result requires all children examined; True requires own or a selected child
+    # (b) an outline whose rows are not built yet (row cache empty): a selected row still selects the outline
+    oc = ix.cls("behave.model:ScenarioOutline")
+    fo = oc.lookup("should_run_with_tags")
+    for rows in ((False, True), (False, False), (True,)):
+        st = State()
+        st.frames = []
+        te = st.alloc(HObj("TagExprStub", {}, label="tag_expression"))
+        toks = [st.alloc(HObj("ChildStub", {"sel": r}, label="row")) for r in rows]
+        rowlist = st.alloc(HObj("list", kind="list", items=toks, label="rows (built on demand)"))
+        it2 = Interp(ix, stubs={"TagExprStub.check": lambda i, s, a, k, n: [(s, "val", False)],
+                                "ChildStub.should_run_with_tags": lambda i, s, a, k, n: [(s, "val", s.obj(a[0]).fields["sel"])]},
+                     attr_stubs={"TagAndStatusStatement.effective_tags": lambda i, s, b, n: [(s, "val", marker)],
+                                 "ScenarioOutline.scenarios": lambda i, s, b, n: [(s, "val", rowlist)]}, name="outline.should_run_with_tags")
+        me = st.alloc(HObj(oc, {"tags": ("t",), "parent": None,
+                                "_scenarios": st.alloc(HObj("list", kind="list", items=[], label="row cache (not built yet)"))}, label="outline"))
+        outs = it2.call_function(st, fo, [te], {}, None, self_val=me)
+        chk.absorb(it2)
+        chk.instance("G5")
+        got = outs[0][2] if len(outs) == 1 and outs[0][1] == "val" else None
+        if got is any(rows):
+            chk.ok("G5", {"class": "ScenarioOutline", "own_tags_selected": False, "rows_selected": list(rows), "result": got}, nontrivial_key=("outline-rows", rows))
+        else:
+            _fail(chk, "G5", fo, "outline rows=%s (cache empty) -> %r" % (list(rows), got),
+                  "ScenarioOutline.should_run_with_tags with rows selected %s (rows not built yet) returns %r, expected %s: the "
+                  "outline (and the hooks of its feature/rule) is decided without looking at its rows" % (list(rows), got, any(rows)))
     chk.absorb(it)
-    chk.require_instances("G5", 4)
+    chk.require_instances("G5", 7)
 
 
 def check_builder_effects(chk, ix, rules=("B3", "G3", "G2")):
